@@ -178,12 +178,48 @@ def handle (mh : Nat) (peers : List Node) (self frm : Node) (clock : Nat) (a : A
         let f := fwdAdv self a
         (st2, (fwdTargets peers frm f.seenBy).map (fun p => (p, f)), .new)
 
-/-! ### AnnounceLocalRoutes -/
+/-! ### splitting a route set into advertisements (`splitRoutes`, at most 255 routes each)
 
-def announceAdv (self : Node) (st : NodeSt) : Adv :=
-  { origin := self, seq := st.seq + 1,
-    routes := st.locals ++ [{ kind := 3, key := self, metric := 0 }],
-    path := [self], seenBy := [self] }
+  The byte budget of `splitRoutes` (MaxPayloadSize − headroom − header) is never binding for the
+  route encodings used here (≤ 24 bytes per route, 255 routes ≤ 6.2 kB); only the 1-byte route
+  count is modelled. -/
+
+def maxRoutesPerAdv : Nat := 255
+
+def splitAux : Nat → List RAd → List (List RAd)
+  | 0, rs => [rs]
+  | f + 1, rs => if rs.length ≤ maxRoutesPerAdv then [rs] else rs.take maxRoutesPerAdv :: splitAux f (rs.drop maxRoutesPerAdv)
+
+/-- Consecutive groups of at most 255 routes; at least one (possibly empty) group. -/
+def splitRoutes (rs : List RAd) : List (List RAd) := splitAux rs.length rs
+
+/-! ### AnnounceLocalRoutes
+
+  The local routes come out of Go maps, so WHICH routes share an advertisement is not determined
+  when there are more than 255 of them.  `hint` is the grouping the implementation chose (follow
+  mode); it is used when it is an admissible grouping of the announced route set, otherwise the
+  canonical split is used. -/
+
+def announcedRoutes (self : Node) (st : NodeSt) : List RAd := st.locals ++ [{ kind := 3, key := self, metric := 0 }]
+
+def groupOK (all g : List RAd) : Bool := g.all (fun r => all.contains r) && decide (g.length ≤ maxRoutesPerAdv)
+
+def groupingOK (all : List RAd) (hint : List (List RAd)) : Bool :=
+  hint.all (groupOK all) &&
+  (hint.map List.length == (splitRoutes all).map List.length) &&
+  all.all (fun r => hint.flatten.contains r)
+
+def effGroups (all : List RAd) (hint : List (List RAd)) : List (List RAd) :=
+  if groupingOK all hint then hint else splitRoutes all
+
+def announceAdvsAux (self : Node) : List (List RAd) → Nat → List Adv
+  | [], _ => []
+  | g :: t, seq =>
+    { origin := self, seq := seq + 1, routes := g, path := [self], seenBy := [self] } :: announceAdvsAux self t (seq + 1)
+
+/-- One advertisement per group, each with its own sequence number. -/
+def announceAdvs (self : Node) (st : NodeSt) (hint : List (List RAd)) : List Adv :=
+  announceAdvsAux self (effGroups (announcedRoutes self st) hint) st.seq
 
 /-! ### WithdrawLocalRoutes -/
 
@@ -209,45 +245,111 @@ def firstPath (l : List Entry) : Option (List Node) :=
   | [] => none
   | e :: _ => if e.path.length > 0 then some e.path else none
 
-def replayGroup (self peer : Node) (st : NodeSt) (o : Node) (seq : Nat) : Adv :=
-  let pick := fun (k : Nat) => st.tab.filter (fun e => e.kind == k && e.origin == o && e.nextHop != peer)
-  let cidr := pick 0
-  let dom := pick 1
-  let fwd := pick 2
-  let ag := st.agents.filter (fun e => e.origin == o && e.nextHop != peer)
-  let p := match firstPath cidr with
-    | some p => p
-    | none => match firstPath ag with
-      | some p => p
-      | none => match firstPath fwd with
-        | some p => p
-        | none => match firstPath dom with
-          | some p => p
-          | none => []
-  { origin := o, seq := seq, routes := (cidr ++ ag ++ fwd ++ dom).map toRAd, path := self :: p, seenBy := [self] }
+def pickTab (st : NodeSt) (peer o k : Nat) : List Entry :=
+  st.tab.filter (fun e => e.kind == k && e.origin == o && e.nextHop != peer)
 
-/-- `ord` is the order in which Go's map iteration visits the origins; any permutation of the
-    origin set is possible, anything else falls back to the canonical order. -/
+def pickAgents (st : NodeSt) (peer o : Nat) : List Entry :=
+  st.agents.filter (fun e => e.origin == o && e.nextHop != peer)
+
+/-- Every stored route of origin `o` that SendFullTable(peer) re-advertises, in the order it builds
+    the route list: CIDR, presence, forward, domain. -/
+def originEntries (st : NodeSt) (peer o : Nat) : List Entry :=
+  pickTab st peer o 0 ++ pickAgents st peer o ++ pickTab st peer o 2 ++ pickTab st peer o 1
+
+def baseRoutes (st : NodeSt) (peer o : Nat) : List RAd := (originEntries st peer o).map toRAd
+
+/-- The path tail SendFullTable uses when every per-kind list is visited in model order
+    (`x[0]` = first element). -/
+def canonTail (st : NodeSt) (peer o : Nat) : List Node :=
+  match firstPath (pickTab st peer o 0) with
+  | some p => p
+  | none => match firstPath (pickAgents st peer o) with
+    | some p => p
+    | none => match firstPath (pickTab st peer o 2) with
+      | some p => p
+      | none => match firstPath (pickTab st peer o 1) with
+        | some p => p
+        | none => []
+
+/-- The per-kind route lists of the three origin-keyed tables come out of Go maps: `x[0]` may be
+    ANY element (their stored paths differ once an origin announces in several groups); the
+    presence list is a slice, its head is fixed. -/
+def anyTail (l : List Entry) (next : List (List Node)) : List (List Node) :=
+  (l.filter (fun e => e.path != [])).map (·.path) ++ (if l.isEmpty || l.any (fun e => e.path == []) then next else [])
+
+def headTail (l : List Entry) (next : List (List Node)) : List (List Node) :=
+  match l with
+  | [] => next
+  | e :: _ => if e.path != [] then [e.path] else next
+
+def exactTails (st : NodeSt) (peer o : Nat) : List (List Node) :=
+  anyTail (pickTab st peer o 0) (headTail (pickAgents st peer o) (anyTail (pickTab st peer o 2) (anyTail (pickTab st peer o 1) [[]])))
+
+/-- One advertisement SendFullTable emits, before it gets its sequence number. -/
+structure RFrame where
+  origin : Node
+  ptail : List Node
+  routes : List RAd
+deriving DecidableEq, Repr
+
+/-- What the proofs need to know about an emitted frame: it is about an origin that has routes to
+    replay, it carries only stored routes of that origin, its path tail is the stored path of one
+    of them — or empty, which requires an entry without path (a local route) unless nothing is
+    carried at all. -/
+def frameOK (st : NodeSt) (peer : Node) (fr : RFrame) : Bool :=
+  (replayOrigins st peer).contains fr.origin &&
+  fr.routes.all (fun r => (baseRoutes st peer fr.origin).contains r) &&
+  decide (fr.routes.length ≤ maxRoutesPerAdv) &&
+  (if fr.ptail == [] then (originEntries st peer fr.origin).any (fun e => e.path == []) || (baseRoutes st peer fr.origin).isEmpty
+   else (originEntries st peer fr.origin).any (fun e => e.path == fr.ptail))
+
+def canonFrames (st : NodeSt) (peer : Node) : List RFrame :=
+  (replayOrigins st peer).flatMap (fun o =>
+    (splitRoutes (baseRoutes st peer o)).map (fun g => { origin := o, ptail := canonTail st peer o, routes := g }))
+
+/-- Origins in order of first appearance. -/
+def originRuns : List RFrame → List Node
+  | [] => []
+  | fr :: t => match originRuns t with
+    | [] => [fr.origin]
+    | o :: rest => if o = fr.origin then o :: rest else fr.origin :: o :: rest
+
 def isPermOf (ord os : List Node) : Bool :=
   decide (ord.length = os.length) && os.all (fun o => ord.contains o) && ord.all (fun o => os.contains o)
 
-def effOrd (st : NodeSt) (peer : Node) (ord : List Node) : List Node :=
-  let os := replayOrigins st peer
-  if isPermOf ord os then ord else os
+/-- `hint` = the frames the implementation emitted (follow mode). Admissible: every frame is OK;
+    the origins come in runs, one run per origin, in any order (Go map iteration); the runs' route
+    groups are an admissible grouping of that origin's stored routes; every frame of a run carries
+    the same path tail, one that the `x[0]` choices can produce. -/
+def hintOK (st : NodeSt) (peer : Node) (hint : List RFrame) : Bool :=
+  hint.all (frameOK st peer) &&
+  isPermOf (originRuns hint) (replayOrigins st peer) &&
+  (replayOrigins st peer).all (fun o =>
+    let frs := hint.filter (fun fr => fr.origin == o)
+    groupingOK (baseRoutes st peer o) (frs.map (·.routes)) &&
+    (match frs with
+      | [] => false
+      | fr :: t => t.all (fun g => g.ptail == fr.ptail) && (exactTails st peer o).contains fr.ptail))
 
-def replayAdvsAux (self peer : Node) (st : NodeSt) : List Node → Nat → List Adv
+def effFrames (st : NodeSt) (peer : Node) (hint : List RFrame) : List RFrame :=
+  if hintOK st peer hint then hint else (canonFrames st peer).filter (frameOK st peer)
+
+def replayAdvsAux (self : Node) : List RFrame → Nat → List Adv
   | [], _ => []
-  | o :: t, seq => replayGroup self peer st o (seq + 1) :: replayAdvsAux self peer st t (seq + 1)
+  | fr :: t, seq =>
+    { origin := fr.origin, seq := seq + 1, routes := fr.routes, path := self :: fr.ptail, seenBy := [self] }
+      :: replayAdvsAux self t (seq + 1)
 
-def replayAdvs (self peer : Node) (st : NodeSt) (ord : List Node) : List Adv :=
-  replayAdvsAux self peer st (effOrd st peer ord) st.seq
+def replayAdvs (self peer : Node) (st : NodeSt) (hint : List RFrame) : List Adv :=
+  replayAdvsAux self (effFrames st peer hint) st.seq
 
 /-! ### the labelled transition system -/
 
 inductive Op where
   | connect (a b : Node)
-  | replay (a b : Node) (ord : List Node)
-  | announce (a : Node)
+  | disconnect (a b : Node)
+  | replay (a b : Node) (hint : List RFrame)
+  | announce (a : Node) (hint : List (List RAd))
   | withdraw (a : Node)
   | deliver (a b : Node) (i : Nat)
   | dup (a b : Node) (i : Nat)
@@ -297,11 +399,27 @@ def process (s : Net) (a b : Node) (m : Adv) : Net × Res :=
 
 def tick (s : Net) : Net := { s with clock := s.clock + 1 }
 
+/-- `Manager.HandlePeerDisconnect{,Domain,Forward,Agent}`: forget every route learned from `p`. -/
+def NodeSt.dropPeer (st : NodeSt) (p : Node) : NodeSt :=
+  { st with tab := st.tab.filter (fun e => e.nextHop != p),
+            agents := st.agents.filter (fun e => e.nextHop != p) }
+
 /-- One op. The clock advances first (every op is one logical tick). -/
 def stepCore (s : Net) : Op → Net
   | .connect a b =>
     if a < s.n ∧ b < s.n ∧ a ≠ b then
       { s with links := (if linked s a b then [] else [(a, b)]) ++ (if linked s b a then [] else [(b, a)]) ++ s.links }
+    else s
+  | .disconnect a b =>
+    -- the connection a — b is gone: frames queued on it are lost and both ends run
+    -- Agent.handlePeerDisconnect (RemoveRoutesFromPeer on all four tables)
+    if a < s.n ∧ b < s.n ∧ linked s a b then
+      let sa := s.nodes a
+      let sb := s.nodes b
+      let s1 := setNode s a (sa.dropPeer b)
+      let s2 := setNode s1 b (sb.dropPeer a)
+      { s2 with links := s.links.filter (fun l => l != (a, b) && l != (b, a)),
+                flight := s.flight.filter (fun f => !(onLink a b f) && !(onLink b a f)) }
     else s
   | .replay a b ord =>
     if a < s.n ∧ b < s.n ∧ linked s a b then
@@ -310,12 +428,13 @@ def stepCore (s : Net) : Op → Net
       { setNode s a { st with seq := st.seq + advs.length } with
         flight := s.flight ++ advs.map (fun m => { src := a, dst := b, adv := m }) }
     else s
-  | .announce a =>
+  | .announce a hint =>
     if a < s.n then
       let st := s.nodes a
-      let m := announceAdv a st
-      { setNode s a { st with seq := st.seq + 1 } with
-        flight := s.flight ++ (peersOf s a).map (fun p => { src := a, dst := p, adv := m }) }
+      let advs := announceAdvs a st hint
+      -- each advertisement is sent to every peer before the next one is built
+      { setNode s a { st with seq := st.seq + advs.length } with
+        flight := s.flight ++ advs.flatMap (fun m => (peersOf s a).map (fun p => { src := a, dst := p, adv := m })) }
     else s
   | .withdraw a =>
     -- WithdrawLocalRoutes returns early (no sequence number used) without local CIDR routes
